@@ -59,33 +59,33 @@ type vC15Req struct {
 }
 
 type vC15Ctl struct {
-	t      testing.TB
-	ctx    context.Context
-	tw     *vTraceWriter
-	raw    base.BootstrapConnection
-	bucket string
-	mu     sync.Mutex // serialises storage operations + logging (a storage step and the snapshot after it are atomic)
-	quiet  bool       // no trace output (used while measuring)
-	gated  bool
-	reqs   chan *vC15Req
-	nSt    int
+	t       testing.TB
+	ctx     context.Context
+	tw      *vTraceWriter
+	raw     base.BootstrapConnection
+	bucket  string
+	mu      sync.Mutex // serialises storage operations + logging (a storage step and the snapshot after it are atomic)
+	quiet   bool       // no trace output (used while measuring)
+	gated   bool
+	reqs    chan *vC15Req
+	nSt     int
 	timeout time.Duration
 }
 
 type vC15Node struct {
 	base.BootstrapConnection // the shared Rosmar cluster connection; only the metadata-document calls are intercepted
-	ctl       *vC15Ctl
-	n         int
-	ops       int  // storage operations performed by the current call
-	writes    int  // storage writes attempted by the current call
-	dieBefore int  // 0: never; k: die before the k-th write of the current call
-	dead      bool
-	kinds     []string
-	lastReg   vObj // projection of the registry this node read last
-	lastKind  string
-	lastDB    string
-	waitFrom  time.Time
-	bc        *bootstrapContext
+	ctl                      *vC15Ctl
+	n                        int
+	ops                      int // storage operations performed by the current call
+	writes                   int // storage writes attempted by the current call
+	dieBefore                int // 0: never; k: die before the k-th write of the current call
+	dead                     bool
+	kinds                    []string
+	lastReg                  vObj // projection of the registry this node read last
+	lastKind                 string
+	lastDB                   string
+	waitFrom                 time.Time
+	bc                       *bootstrapContext
 }
 
 func (c *vC15Ctl) keyOf(key string) (kind string, db string) {
@@ -633,14 +633,24 @@ type vC15Shape struct {
 	Prep []vC15Op `json:"prep"`
 }
 
-type vC15Plan struct {
+// a family of the crash-point enumeration: its own shapes, operations and follow-ups
+type vC15Family struct {
+	Name      string      `json:"name"`
 	Shapes    []vC15Shape `json:"shapes"`
-	Ops       []vC15Op    `json:"ops"`       // operations whose every storage write is a crash point (run on node 1)
-	Followups []vC15Op    `json:"followups"` // run on node 2 after the crash
-	TimeoutMs int         `json:"timeout_ms"`
-	BoundMs   int         `json:"bound_ms"`
-	Stride    int         `json:"stride"` // quick tier: follow-up f is run from the unhealed state only when (index+seed) % stride == 0
-	Races     []vC15Race  `json:"races"`
+	Ops       []vC15Op    `json:"ops"`
+	Followups []vC15Op    `json:"followups"`
+	Stride    int         `json:"stride"`
+}
+
+type vC15Plan struct {
+	Families  []vC15Family `json:"families"`
+	Shapes    []vC15Shape  `json:"shapes"`
+	Ops       []vC15Op     `json:"ops"`       // operations whose every storage write is a crash point (run on node 1)
+	Followups []vC15Op     `json:"followups"` // run on node 2 after the crash
+	TimeoutMs int          `json:"timeout_ms"`
+	BoundMs   int          `json:"bound_ms"`
+	Stride    int          `json:"stride"` // quick tier: follow-up f is run from the unhealed state only when (index+seed) % stride == 0
+	Races     []vC15Race   `json:"races"`
 }
 
 func TestVerif_C15_ConfigRegistry(t *testing.T) {
@@ -713,52 +723,67 @@ func TestVerif_C15_ConfigRegistry(t *testing.T) {
 		}
 	}
 
-	for si, sh := range plan.Shapes {
-		for oi, op := range plan.Ops {
-			op.N = 1
-			op.Die = 0
-			calls := append(append([]vC15Op{}, sh.Prep...), op)
-			probe := len(calls) - 1
-			id := fmt.Sprintf("rec/%s/%s", sh.Name, op.String())
-			w, hung := run(id, "rec", append(append([]vC15Op{}, calls...), vC15Op{N: 2, T: "L"}), probe)
-			scen++
-			index = append(index, vObj{"id": id, "shape": sh.Name, "op": op.String(), "writes": w, "hung": hung})
-			for k := 1; k <= w; k++ {
-				cop := op
-				cop.Die = k
-				pre := append(append([]vC15Op{}, sh.Prep...), cop)
-				// (a) the other node loads (twice), then every follow-up in turn, then loads again
-				a := append(append([]vC15Op{}, pre...), vC15Op{N: 2, T: "L"}, vC15Op{N: 2, T: "L"})
-				// operations on the other database first (they must not be able to use what the interrupted change holds)
-				for pass := 0; pass < 2; pass++ {
-					for _, f := range plan.Followups {
-						if (f.DB != op.DB) == (pass == 0) {
-							f.N = 2
-							a = append(a, f)
+	if len(plan.Shapes) > 0 {
+		plan.Families = append([]vC15Family{{Name: "", Shapes: plan.Shapes, Ops: plan.Ops, Followups: plan.Followups, Stride: plan.Stride}}, plan.Families...)
+	}
+	for _, fam := range plan.Families {
+		if fam.Stride == 0 {
+			fam.Stride = 1
+		}
+		for si, sh := range fam.Shapes {
+			if fam.Name != "" {
+				sh.Name = fam.Name + ":" + sh.Name
+			}
+			for oi, op := range fam.Ops {
+				op.N = 1
+				op.Die = 0
+				calls := append(append([]vC15Op{}, sh.Prep...), op)
+				probe := len(calls) - 1
+				id := fmt.Sprintf("rec/%s/%s", sh.Name, op.String())
+				w, hung := run(id, "rec", append(append([]vC15Op{}, calls...), vC15Op{N: 2, T: "L"}), probe)
+				scen++
+				index = append(index, vObj{"id": id, "shape": sh.Name, "op": op.String(), "writes": w, "hung": hung})
+				for k := 1; k <= w; k++ {
+					cop := op
+					cop.Die = k
+					pre := append(append([]vC15Op{}, sh.Prep...), cop)
+					// (a) one chain per crash point: the operations on the OTHER database on the unhealed state (they must not
+					// be able to take what the interrupted change still holds), the other node loads (twice), the
+					// operations on the other database again, then those on the same database, and a load
+					a := append([]vC15Op{}, pre...)
+					for pass := 0; pass < 3; pass++ {
+						for _, f := range fam.Followups {
+							if (f.DB != op.DB) == (pass < 2) {
+								f.N = 2
+								a = append(a, f)
+							}
+						}
+						if pass == 0 {
+							a = append(a, vC15Op{N: 2, T: "L"}, vC15Op{N: 2, T: "L"})
 						}
 					}
-				}
-				a = append(a, vC15Op{N: 2, T: "L"})
-				id := fmt.Sprintf("crash/%s/%s@%d/heal-then-all", sh.Name, op.String(), k)
-				_, hung := run(id, "crash-load", a, -1)
-				scen++
-				index = append(index, vObj{"id": id, "hung": hung})
-				// (b) each follow-up directly on the unhealed state, then a load; (c) the same after a healing load
-				for fi, f := range plan.Followups {
-					f.N = 2
-					if (si+oi+k+fi+seed)%plan.Stride == 0 {
-						b := append(append([]vC15Op{}, pre...), f, vC15Op{N: 2, T: "L"})
-						id := fmt.Sprintf("crash/%s/%s@%d/%s", sh.Name, op.String(), k, f.String())
-						_, hung := run(id, "crash-followup", b, -1)
-						scen++
-						index = append(index, vObj{"id": id, "hung": hung})
-					}
-					if (si+oi+k+fi+seed+1)%plan.Stride == 0 {
-						c := append(append([]vC15Op{}, pre...), vC15Op{N: 2, T: "L"}, f, vC15Op{N: 2, T: "L"})
-						id := fmt.Sprintf("crash/%s/%s@%d/load-then-%s", sh.Name, op.String(), k, f.String())
-						_, hung := run(id, "crash-load-followup", c, -1)
-						scen++
-						index = append(index, vObj{"id": id, "hung": hung})
+					a = append(a, vC15Op{N: 2, T: "L"})
+					id := fmt.Sprintf("crash/%s/%s@%d/heal-then-all", sh.Name, op.String(), k)
+					_, hung := run(id, "crash-load", a, -1)
+					scen++
+					index = append(index, vObj{"id": id, "hung": hung})
+					// (b) each follow-up directly on the unhealed state, then a load; (c) the same after a healing load
+					for fi, f := range fam.Followups {
+						f.N = 2
+						if (si+oi+k+fi+seed)%fam.Stride == 0 {
+							b := append(append([]vC15Op{}, pre...), f, vC15Op{N: 2, T: "L"})
+							id := fmt.Sprintf("crash/%s/%s@%d/%s", sh.Name, op.String(), k, f.String())
+							_, hung := run(id, "crash-followup", b, -1)
+							scen++
+							index = append(index, vObj{"id": id, "hung": hung})
+						}
+						if (si+oi+k+fi+seed+1)%fam.Stride == 0 {
+							c := append(append([]vC15Op{}, pre...), vC15Op{N: 2, T: "L"}, f, vC15Op{N: 2, T: "L"})
+							id := fmt.Sprintf("crash/%s/%s@%d/load-then-%s", sh.Name, op.String(), k, f.String())
+							_, hung := run(id, "crash-load-followup", c, -1)
+							scen++
+							index = append(index, vObj{"id": id, "hung": hung})
+						}
 					}
 				}
 			}
